@@ -25,6 +25,8 @@ UNITS = {
     "feat.of64": ("units/feat.rs", "of64"),
     "feat.f64": ("units/feat.rs", "f64"),
     "featp": ("units/featp.rs", "f64"),
+    "bin.of64": ("units/bin.rs", "of64"),
+    "bin.f64": ("units/bin.rs", "f64"),
 }
 
 PLAN = {
@@ -119,6 +121,12 @@ PLAN["C19"] = dict(
 
 PLAN["C12"] = dict(
     verus=dict(quick=["rank", "quant"], thorough=["rank", "quant"]),
+    kani=dict(quick=[], thorough=[]),
+    level="proof",
+)
+
+PLAN["C04"] = dict(
+    verus=dict(quick=["bin.of64"], thorough=["bin.of64", "bin.f64"]),
     kani=dict(quick=[], thorough=[]),
     level="proof",
 )
